@@ -350,8 +350,16 @@ func execPemFile(raw json.RawMessage) any {
 	}
 	pf, err := cert.ReadPem(content)
 	art := filesystem.VerifImportPem(content)
-	sameCert := pf.Certificate != nil && bytes.Equal(must(asn1.Marshal(*pf.Certificate)), mat[0])
-	sameCsr := pf.Request != nil && bytes.Equal(must(asn1.Marshal(*pf.Request)), mat[2])
+	// (a mutated block may parse into a structure that cannot be marshalled again: that is "not the same", not a crash)
+	remarshal := func(v any) []byte {
+		b, merr := asn1.Marshal(v)
+		if merr != nil {
+			return nil
+		}
+		return b
+	}
+	sameCert := pf.Certificate != nil && bytes.Equal(remarshal(*pf.Certificate), mat[0])
+	sameCsr := pf.Request != nil && bytes.Equal(remarshal(*pf.Request), mat[2])
 	sameKey := false
 	if pf.PrivateKey != nil {
 		if kb, kerr := cert.MarshalPKCS8PrivateKey(pf.PrivateKey); kerr == nil {
